@@ -24,6 +24,10 @@ type SeqCase struct {
 	// NoBarrier: do not wait for the background rotation after an append, so the next
 	// operation (a truncation, Close, a read) races with it. The outcome must be the same.
 	NoBarrier bool `json:"nobarrier,omitempty"`
+	// CheckDir (SimFS, with barrier): after every step, with no call in flight, the directory
+	// must hold exactly the files of the segments in committed metadata and every file exactly
+	// one open handle (C13: space is reclaimed as soon as a truncation has returned).
+	CheckDir bool `json:"checkdir,omitempty"`
 }
 
 var segSizes = []int{1, 40, 64, 128, 512, 4096, 1 << 20}
@@ -221,6 +225,15 @@ func runSeq(c SeqCase) (res common.Result) {
 			res.Fail = common.Failf(sig, "after step %d %v (seg=%d): %s", i, op, c.SegSize, msg)
 			return
 		}
+		if c.CheckDir && e.cfg.FS != nil && !c.NoBarrier {
+			if f := checkReclaimed(e, i, op); f != nil {
+				res.Fail = f
+				return
+			}
+			if op.Kind == "del" && truncated {
+				cls["dir-checked-after-truncation"] = true
+			}
+		}
 	}
 	res.NonTrivial = (truncated && (cls["read-outside-after-trunc"] || cls["reopen-after-structural"])) || cls["reopen-after-structural"]
 	for k := range cls {
@@ -228,6 +241,24 @@ func runSeq(c SeqCase) (res common.Result) {
 	}
 	res.Note = fmt.Sprintf("final model [%d,%d]", e.m.First, e.m.Last)
 	return
+}
+
+// checkReclaimed: with no call in flight and no rotation pending, the directory is exactly the
+// committed metadata's file set and every segment file has exactly one open handle.
+func checkReclaimed(e *seqEnv, step int, op Op) *common.Failure {
+	fs := e.cfg.FS
+	extra, missing := kit.DirVsMeta(fs)
+	if len(extra) > 0 {
+		return common.Failf("seq-dir-extra", "after step %d %v, nothing in flight: files %v are in the directory but belong to no segment of the committed metadata (model [%d,%d])", step, op, extra, e.m.First, e.m.Last)
+	}
+	if len(missing) > 0 {
+		return common.Failf("seq-dir-missing", "after step %d %v: segments %v are listed in committed metadata but have no file", step, op, missing)
+	}
+	st, _ := fs.MetaState()
+	if got, want := fs.OpenHandles(), len(st.Segments); got != want {
+		return common.Failf("seq-handles", "after step %d %v, nothing in flight: %d file handles are open for %d live segments", step, op, got, want)
+	}
+	return nil
 }
 
 func TestC05Sim(t *testing.T) {
@@ -238,6 +269,21 @@ func TestC05Sim(t *testing.T) {
 // a segment-filling append, while the rotation it queued may still be pending.
 func TestC04RotationRace(t *testing.T) {
 	common.Run(t, "C04", "C04RotationRace", genRotationRace(false), runSeq)
+}
+
+// TestC13Seq: C05's sequences (reads of absent indexes, refused calls and reopens included) with
+// the reclamation oracle after every step.
+func TestC13Seq(t *testing.T) {
+	gen := genSeqCase(false, 40)
+	common.Run(t, "C13", "C13Seq", func(t *rapid.T) SeqCase {
+		c := gen(t)
+		c.NoBarrier = false
+		c.CheckDir = true
+		if c.SegSize > 512 {
+			c.SegSize = rapid.SampledFrom([]int{1, 40, 64, 128}).Draw(t, "smallseg")
+		}
+		return c
+	}, runSeq)
 }
 
 func TestC05Real(t *testing.T) {
